@@ -130,6 +130,20 @@ EXPLANATION += ("  Sample classes: private_parameters_dict / shared_parameters_d
                 "as_arr / as_num, list(d.items()), np.array, zip, dict, and for equals: print ignored, isinstance tests, !=, np.array_equal, dispatch).  The roundtrip "
                 "cases of the correspondence run the real methods (including from_dicts on dicts read back from HDF5 in another entry order) bit for bit. ")
 
+# ---- wave 6 of the source link: ThetaHolder.__iter__, Metric.evaluate_all, BayesianModel.__init__, Metric.__init__ (Generated/SrcCoreSmall.v, SrcInits.v) ----
+THEOREMS.update({
+    "C10_model_is_source_iter": "the translated generator ThetaHolder.__iter__ (the list it yields) = the stored samples in their order",
+    "C10_model_is_source_evaluate_all": "the translated Metric.evaluate_all = the abstract evaluate (ANY function that may raise) mapped over the holder's stored samples in order, first exception aborting; iterating the holder runs the translated __iter__",
+    "C10_model_is_source_bayesian_model_init": "the translated BayesianModel.__init__ stores experiment_space (an opaque value)",
+    "C10_model_is_source_metric_init": "the translated Metric.__init__ stores model (an opaque value)",
+})
+EXPLANATION += ("  SMALL FUNCTIONS of core.py: ThetaHolder.__iter__ (py2gal `generator`: a generator function denotes the list it yields; laziness is not "
+                "represented), Metric.evaluate_all (primitives: `for x in results_holder` = the translated __iter__ of the holder; self.evaluate = ANY "
+                "function `ev` that may raise; np.array(list) = the same values), BayesianModel.__init__ and Metric.__init__ (no primitive) are "
+                "re-translated on every run (LS_HOLDER_ITER / LS_METRIC_EVALUATE_ALL -> Generated/SrcCoreSmall.v, LS_INIT_* -> Generated/SrcInits.v).  "
+                "Metric and BayesianModel.__init__ are not called by any code of src/batchie (no subclass calls super().__init__(experiment_space)): "
+                "these two links cover dead code.")
+
 _NAN1 = struct.unpack("<d", struct.pack("<Q", 0x7FF8000000000123))[0]
 _NAN2 = struct.unpack("<d", struct.pack("<Q", 0xFFF0000000000001))[0]
 SPECIALS = [0.0, -0.0, 5e-324, -5e-324, 2.225073858507201e-308, 2.2250738585072014e-308, 1e-320,
